@@ -297,4 +297,4 @@ func runC17(e *core.Env, s *c17Scenario) {
 	}
 }
 
-func init() { core.Register("C17", genC17, runC17) }
+func init() { core.Register("C17wti", genC17, runC17) }
